@@ -39,8 +39,7 @@ pub fn generate(thorough: bool, seed: u64, em: &mut Emitter) {
         let mut rc = r.fork();
         let r = &mut rc;
         let depth = if thorough { 2 + r.below(3) as u32 } else { 2 + r.below(2) as u32 };
-        let claims = gen::gen_object(r, depth, 3, 1);
-        let marks = gen::gen_marking(r, &claims, true);
+        let (claims, marks) = gen::claims_and_marking(r, i, depth, 3);
         if marks.is_empty() {
             continue;
         }
